@@ -238,12 +238,14 @@ class Op:
             return _mprod_impl(a, [list(self.impl_modes), self.ia[1]])
         if self.name == "OSum" and getattr(self, "int_index", False):      # the documented bare-int form of sum(index)
             return self.args[0].impl(env, dtype).sum(int(self.ia[0][0]))
+        if self.name == "OSum" and getattr(self, "impl_axes", None) is not None:   # the same SET of modes handed over in another order (a sum does not depend on it)
+            return self.args[0].impl(env, dtype).sum(list(self.impl_axes))
         return IMPL_OPS[self.name]([a.impl(env, dtype) for a in self.args], self.ia)
     def dense(self, env, dtype):
         if self.name in FACTORY_DENSE: return FACTORY_DENSE[self.name](self.ia, dtype)
         return DENSE_OPS[self.name]([a.dense(env, dtype) for a in self.args], self.ia)
-    def desc(self): return dict({"op": self.name, "args": [a.desc() for a in self.args], "ia": self.ia}, **({"int_index": True} if getattr(self, "int_index", False) else {}), **({"impl_modes": list(self.impl_modes)} if getattr(self, "impl_modes", None) is not None else {}))
-    def to_json(self): return dict({"op": self.name, "args": [a.to_json() for a in self.args], "ia": self.ia}, **({"int_index": True} if getattr(self, "int_index", False) else {}), **({"impl_modes": list(self.impl_modes)} if getattr(self, "impl_modes", None) is not None else {}))
+    def desc(self): return dict({"op": self.name, "args": [a.desc() for a in self.args], "ia": self.ia}, **({"int_index": True} if getattr(self, "int_index", False) else {}), **({"impl_modes": list(self.impl_modes)} if getattr(self, "impl_modes", None) is not None else {}), **({"impl_axes": list(self.impl_axes)} if getattr(self, "impl_axes", None) is not None else {}))
+    def to_json(self): return dict({"op": self.name, "args": [a.to_json() for a in self.args], "ia": self.ia}, **({"int_index": True} if getattr(self, "int_index", False) else {}), **({"impl_modes": list(self.impl_modes)} if getattr(self, "impl_modes", None) is not None else {}), **({"impl_axes": list(self.impl_axes)} if getattr(self, "impl_axes", None) is not None else {}))
 
 
 def observe_impl(v):
